@@ -970,11 +970,18 @@ impl ErasedNode for Node {
     }
     fn run_on_update_handlers(&self, node_update: NodeUpdateDelayed, now: StabilisationNum) {
         let input = self.erased();
-        let mut ouh = self.on_update_handlers.borrow_mut();
+        // A handler may call `Incr::on_update` on this very node, so the list must not stay
+        // borrowed while the handlers run. Handlers added meanwhile go after the existing ones
+        // (they do not run in this stabilisation: see `OnUpdateHandler::run`).
+        let mut ouh = std::mem::take(&mut *self.on_update_handlers.borrow_mut());
         for handler in ouh.iter_mut() {
             handler.run(self, node_update, now)
         }
-        drop(ouh);
+        {
+            let mut slot = self.on_update_handlers.borrow_mut();
+            let added = std::mem::replace(&mut *slot, ouh);
+            slot.extend(added);
+        }
         let observers = self.observers.borrow();
         for (_id, obs) in observers.iter() {
             let Some(obs) = obs.upgrade() else { continue };
